@@ -201,7 +201,7 @@ func c14(c *Ctx) {
 			ok := withWatchdog(20*time.Second, f)
 			rec.add("ret:"+name, 0, 0, "")
 			if !ok {
-				dl, sig := engineDeadlocked(inProcessDump())
+				dl, sig := provenDeadlock()
 				payload := map[string]interface{}{"history": h, "ops": ops}
 				opk := strings.Fields(name)[0]
 				if i := strings.Index(opk, "#"); i > 0 {
@@ -557,7 +557,7 @@ func c14race(c *Ctx) {
 			rep.Eval(1)
 			rep.Inc("calls")
 			if !withWatchdog(60*time.Second, f) {
-				dl, sig := engineDeadlocked(inProcessDump())
+				dl, sig := provenDeadlock()
 				if dl {
 					raceDeadlocks++
 					rep.Viol("blocked:"+name+":deadlock:"+sig, "lifecycle call "+name+" does not return (deadlock "+sig+")", nil)
